@@ -35,7 +35,7 @@ m = {
  'setup_cmd': './check build',
  'hooks': {
    'guard': 'verif (Go build tag)',
-   'enable': 'go build -tags verif (every monitor binary is built that way by ./check); hook files: waddrmgr/verif_hooks.go, wtxmgr/verif_hooks.go, wallet/verif_hooks.go',
+   'enable': 'go build -tags verif (every monitor binary is built that way by ./check); hook files: waddrmgr/verif_hooks.go, wtxmgr/verif_hooks.go, wallet/verif_hooks.go, chain/verif_hooks.go',
    'baseline_off_cmd': '/verif/scripts/baseline_off.sh',
    'source_commits': [h.split()[0] for h in hooks],
    'add_only': True,
